@@ -111,7 +111,10 @@ def build(tier="quick", seed=0):
                     nomark = not any(pth.endswith("mp_success.log") for k, pth in fs.events)
                     ground(b, f"{worker.key}::ensures:failed_case_unmarked{tag}", worker.key, "a failed case leaves no success marker (it is re-run on restart)", nomark, detail=str(fs.events))
     journal(b, parent, seed, tier)
+    restart_scan(b, parent)
+    reload_indices(b, parent, seed, tier)
     b.replayer(f"{worker.key}::*", _replay_worker)
+    b.replayer(f"{FMP}::multiprocessing_run#*", _replay_restart)
     b.assume("NOT DECIDED: kill points inside and between bookkeeping steps, process schedules, pool sizes 4..16, subsets of failing cases across a real restart — no contract on a single call can state them and no verifier for OS effects is available")
     b.assume("ghost file system: open(path,'w'), os.makedirs and np.savez create the named path; the event order of one worker call is the program order")
     b.assume("journal round trip is a bounded check of the extracted writer / reader statements on generated inputs, not a proof")
@@ -152,7 +155,12 @@ def journal(b, parent, seed, tier):
         for k in range(0, 4):
             for rep in range(3 if tier == "quick" else 20):
                 mi = container(round(rnd.uniform(-5, 5), rnd.choice([0, 1, 3, 6])) for _ in range(k))
-                cases.append(MI("viscosity", "Viscosity [Pa s]", round(rnd.uniform(0, 3), 3), round(rnd.uniform(4, 9), 3), rnd.choice(["log", "linear"]), mi, rnd.randint(2, 9)))
+                if rep % 2 == 0:
+                    lo_, hi_ = round(rnd.uniform(0, 3), 3), round(rnd.uniform(4, 9), 3)
+                else:                         # bounds that are not exact in a few significant digits (log10 of a physical value, a third)
+                    import math
+                    lo_, hi_ = rnd.choice([1.0 / 3.0, math.log10(3.3e13) - 13.0, rnd.uniform(0, 3)]), rnd.choice([math.log10(3.3e13), 20.0 / 3.0, rnd.uniform(4, 9)])
+                cases.append(MI("viscosity", "Viscosity [Pa s]", lo_, hi_, rnd.choice(["log", "linear"]), mi, rnd.randint(2, 9)))
     n_ok = 0
     fails = []
     for c in cases:
@@ -179,6 +187,237 @@ def journal(b, parent, seed, tier):
                detail=str(bad[:2]), refuted_model=None if not bad else {"must_include": bad[0][0]}, bounded=True)
     b.bounded.append(dict(name="journal round trip (extracted writer / reader statements executed concretely)", bound=f"{len(cases)} generated inputs: list / tuple x 0..3 floats",
                           evaluations=len(cases), passed=n_ok, counted_as_proved=False))
+
+
+def restart_scan(b, parent):
+    """the scan that decides which cases a restart skips: the real loop body is executed for one directory entry under EVERY combination of
+    presence of the files it asks about (the set of files is discovered from the body's own os.path.isfile calls, so a new dependency enlarges
+    the enumeration).  Contract: a case is skipped iff its directory holds the success marker - nothing else may influence the decision
+    (completed cases are never executed again; uncompleted ones always are)."""
+    import itertools as it
+    node = parent.node
+    loops = [n for n in ast.walk(node) if isinstance(n, ast.For) and ast.unparse(n.iter) == "os.listdir(dir_to_use)"]
+    key = f"{FMP}::multiprocessing_run#restart_scan"
+    if len(loops) != 1:
+        b.subset_exits.append(f"{key}: scan loop not found ({len(loops)})")
+        return
+    loop = loops[0]
+    b.functions[key] = dict(function=key, line=loop.lineno, note=f"restart scan loop body (lines {loop.lineno}-{loop.end_lineno}) executed concretely under every file-presence combination",
+                            dropped=["everything of multiprocessing_run outside the loop"])
+    src = "def _scan(run_dir, dir_to_use, cases_to_skip, run_num, os):\n    for _once in (0,):\n" + "\n".join("        " + l for l in "\n".join(ast.unparse(s_) for s_ in loop.body).split("\n")) + "\n    return cases_to_skip, run_num"
+    ns = {}
+    try:
+        exec(compile(src, "scan", "exec"), ns)
+    except SyntaxError as e:
+        b.subset_exits.append(f"{key}: {e}")
+        return
+    asked = set()
+
+    def mk_os(present):
+        class P:
+            @staticmethod
+            def join(*a):
+                return "/".join(a)
+
+            @staticmethod
+            def isfile(path):
+                name = path.split("/")[-1]
+                asked.add(name)
+                return path.startswith("DIR/index_(1, 2)_run_7/") and name in present
+
+            @staticmethod
+            def isdir(path):
+                return path == "DIR/index_(1, 2)_run_7"
+
+        class O:
+            path = P
+        return O
+    files = {"mp_success.log"}
+    for _round in range(4):
+        before = set(files)
+        for k in range(len(files) + 1):
+            for present in it.combinations(sorted(files), k):
+                ns["_scan"]("index_(1, 2)_run_7", "DIR", [], 0, mk_os(set(present)))
+        files |= asked
+        if files == before:
+            break
+    bad = []
+    n = 0
+    for k in range(len(files) + 1):
+        for present in it.combinations(sorted(files), k):
+            n += 1
+            try:
+                skipped, _ = ns["_scan"]("index_(1, 2)_run_7", "DIR", [], 0, mk_os(set(present)))
+            except Exception as e:
+                bad.append((present, f"raised {type(e).__name__}"))
+                continue
+            if (7 in skipped) != ("mp_success.log" in present) or len(skipped) > 1:
+                bad.append((present, f"skipped={skipped}"))
+    ground(b, f"{key}::skip_iff_marker", key, f"for every combination of presence of the files the scan asks about ({sorted(files)}): the case is skipped iff its success marker exists", not bad,
+           detail=f"{n} combinations" if not bad else str(bad[:3]), refuted_model=dict(files_present=str(bad[0][0]), outcome=bad[0][1]) if bad else None, exhaustive=True)
+    # entries that are not case directories never put a case on the skip list
+    bad = []
+    for entry in ("tpy_mp.log", "viscosity.npy", "post_processing"):
+        try:
+            skipped, _ = ns["_scan"](entry, "DIR", [], 0, mk_os({"mp_success.log"}))
+            if skipped:
+                bad.append((entry, skipped))
+        except Exception as e:
+            bad.append((entry, f"raised {type(e).__name__}: {e}"))
+    ground(b, f"{key}::other_entries_ignored", key, "directory entries that are not case directories (journal, saved grids, post-processing) do not put a case on the skip list", not bad, detail=str(bad)[:200],
+           refuted_model=dict(entry=str(bad[0])) if bad else None)
+
+
+def reload_indices(b, parent, seed, tier):
+    """BOUNDED (concrete execution of extracted statements with numpy): grid construction, case builder and the reload loop of a restart - every
+    reloaded case is reported with the grid index the case builder gives the same case number, also when must_include values were merged in."""
+    import random
+    from collections import namedtuple
+    try:
+        import numpy as np
+    except Exception as e:
+        b.bounded.append(dict(name="reload indices", bound="not run", result=f"numpy unavailable: {e}", counted_as_proved=False))
+        return
+    node = parent.node
+    key = f"{FMP}::multiprocessing_run#reload_indices"
+    build = [n for n in ast.walk(node) if isinstance(n, ast.For) and ast.unparse(n.iter) == "input_data_to_use" and "np.linspace" in ast.unparse(n)]
+    mesh = [n for n in ast.walk(node) if isinstance(n, ast.Assign) and ast.unparse(n.targets[0]) == "mesh"]
+    builder = [n for n in ast.walk(node) if isinstance(n, ast.For) and ast.unparse(n.iter) == "range(total_n)" and "cases.append" in ast.unparse(n)]
+    reload_ = [n for n in ast.walk(node) if isinstance(n, ast.For) and ast.unparse(n.iter) == "cases_to_skip" and "np.load" in ast.unparse(n)]
+    if not (len(build) == 1 and len(mesh) == 1 and len(builder) == 1 and len(reload_) == 1):
+        b.subset_exits.append(f"{key}: anchors not found {(len(build), len(mesh), len(builder), len(reload_))}")
+        return
+    try:
+        fnear = Fn("TidalPy/utilities/numpy_helper/array_other.py", "find_nearest")
+    except ExtractError as e:
+        b.subset_exits.append(str(e))
+        return
+    b.add_fn(fnear)
+    ind = lambda n_: "\n".join("    " + l for l in ast.unparse(n_).split("\n"))
+    src = ("def _run(input_data_to_use, cases_to_skip, dir_to_use, np, os, find_nearest):\n    total_n = 1\n    dimensions = 0\n    input_arrays = list()\n    input_names = list()\n    input_scales = list()\n"
+           + ind(build[0]) + "\n" + ind(mesh[0]) + "\n    skipped_indicies = dict()\n    cases = list()\n" + ind(builder[0]) + "\n    previous_run_data = list()\n" + ind(reload_[0])
+           + "\n    return cases, skipped_indicies, previous_run_data, input_arrays")
+    fsrc = ast.unparse(ast.FunctionDef(name="find_nearest", args=fnear.node.args, body=fnear.node.body, decorator_list=[], lineno=1, col_offset=0))
+    ns = {"np": np}
+    try:
+        exec(compile(fsrc, "find_nearest", "exec"), ns)
+        exec(compile(src, "restart", "exec"), ns)
+    except SyntaxError as e:
+        b.subset_exits.append(f"{key}: {e}")
+        return
+    b.functions[key] = dict(function=key, line=build[0].lineno, note="grid construction loop, mesh, case builder loop and reload loop extracted verbatim and executed concretely with numpy",
+                            dropped=["everything of multiprocessing_run outside these statements"])
+    MI = namedtuple("MultiprocessingInput", ("name", "nice_name", "start", "end", "scale", "must_include", "n"))
+
+    class NP:
+        def __getattr__(self, a):
+            return getattr(np, a)
+
+        @staticmethod
+        def save(*a, **k):
+            return None
+
+        @staticmethod
+        def load(path):
+            return ("loaded", path)
+
+    class OS:
+        class path:
+            join = staticmethod(lambda *a: "/".join(a))
+    rnd = random.Random(seed)
+    bad, n = [], 0
+    for rep in range(12 if tier == "quick" else 80):
+        dims = rnd.randint(1, 3)
+        inputs = []
+        for d in range(dims):
+            log = rnd.random() < 0.5
+            lo_, hi_ = (rnd.uniform(0, 2), rnd.uniform(3, 6))
+            k = rnd.choice([0, 0, 1, 2, 3])
+            mi = [rnd.uniform(lo_, hi_) for _ in range(k)]
+            if k and rnd.random() < 0.5:
+                mi = tuple(mi)
+            inputs.append(MI(f"x{d}", f"X{d}", lo_, hi_, "log" if log else "linear", mi, rnd.randint(2, 5)))
+        total = 1
+        try:
+            cases0, _, _, arrays = ns["_run"](inputs, [], "DIR", NP(), OS, ns["find_nearest"])
+            own = {c[0]: tuple(int(i) for i in c[1]) for c in cases0}
+            total = len(cases0)
+            skip = sorted(rnd.sample(range(total), max(1, total // 3)))
+            cases1, skipped, prev, _ = ns["_run"](inputs, list(skip), "DIR", NP(), OS, ns["find_nearest"])
+        except Exception as e:
+            bad.append((rep, f"raised {type(e).__name__}: {e}"))
+            continue
+        n += 1
+        rep_idx = {}
+        for rec in prev:
+            rep_idx[int(rec[0])] = tuple(int(i) for i in rec[1])
+        for k_ in skip:
+            if rep_idx.get(k_) != own[k_]:
+                bad.append((rep, f"case {k_} reloaded with index {rep_idx.get(k_)}, its own is {own[k_]}; must_include={[tuple(i.must_include) for i in inputs]}"))
+                break
+        if sorted(c[0] for c in cases1) != [k_ for k_ in range(total) if k_ not in skip]:
+            bad.append((rep, "cases to run are not exactly the non-skipped case numbers"))
+    ground(b, f"{key}::own_index_on_reload", key, "BOUNDED: every reloaded case carries the grid index the case builder assigns to its case number; the cases queued for execution are exactly the non-skipped ones", not bad,
+           detail=f"{n} generated studies (1-3 dimensions, must_include as list / tuple of 0-3 values, linear / log)" if not bad else str(bad[:2]),
+           refuted_model=dict(example=str(bad[0])) if bad else None, bounded=True)
+    b.bounded.append(dict(name="restart: grid construction + case builder + reload loop (extracted statements executed concretely with numpy)", bound=f"{n} generated studies", evaluations=n,
+                          passed=n - len(bad), counted_as_proved=False))
+
+
+_RESTART_NATIVE = r'''
+import os, tempfile, shutil, math
+import numpy as np
+from TidalPy.utilities.multiprocessing.multiprocessing import multiprocessing_run, MultiprocessingInput
+calls = []
+def study(run_dir, a, b_, a_name=None, b_name=None):
+    with open(os.path.join(BASE, "calls.txt"), "a") as f:
+        f.write(os.path.basename(run_dir) + "\\n")
+    if os.path.exists(os.path.join(BASE, "FAIL")) and int(run_dir.split("_run_")[-1]) % 4 == 1:
+        raise RuntimeError("injected")
+    return {"v": np.asarray([a * 10 + b_])}
+fails = []
+base = tempfile.mkdtemp()
+BASE = base
+try:
+    inputs = (MultiprocessingInput("a", "A", 1.0 / 3.0, math.log10(3.3e13) - 12.0, "linear", (0.9,), 3), MultiprocessingInput("b", "B", 0.0, 2.0, "log", [1.5], 3))
+    ref = multiprocessing_run(os.path.join(base, "ref"), "ref", study, inputs, max_procs=2, allow_low_procs=True, verbose=False, avoid_crashes=True, force_restart=False)
+    open(os.path.join(base, "calls.txt"), "w").close()
+    refd = {int(r[0]): (tuple(int(i) for i in r[1]), float(r[2]["v"][0])) for r in ref}
+    open(os.path.join(base, "FAIL"), "w").close()
+    r1 = multiprocessing_run(os.path.join(base, "study"), "study", study, inputs, max_procs=2, allow_low_procs=True, verbose=False, avoid_crashes=True, force_restart=False)
+    if not [x for x in r1 if x[2] is None]: fails.append("scenario broken: no case failed in the interrupted run")
+    os.remove(os.path.join(base, "FAIL"))
+    for attempt in (2, 3):
+        open(os.path.join(base, "calls.txt"), "w").close()
+        r = multiprocessing_run(os.path.join(base, "study"), "study", study, inputs, max_procs=2, allow_low_procs=True, verbose=False, avoid_crashes=True, force_restart=False)
+        got = {}
+        for rec in r:
+            k = int(rec[0]); got.setdefault(k, []).append((tuple(int(i) for i in rec[1]), float(rec[2]["v"][0]) if rec[2] is not None else None))
+        for k, (idx, val) in refd.items():
+            if k not in got: fails.append("run %d: case %d missing" % (attempt, k)); continue
+            if len(got[k]) != 1: fails.append("run %d: case %d reported %d times" % (attempt, k, len(got[k])))
+            if got[k][0][0] != idx: fails.append("run %d: case %d reported with index %s, its own is %s" % (attempt, k, got[k][0][0], idx))
+            if got[k][0][1] is None or abs(got[k][0][1] - val) > 1e-12 * max(abs(val), 1): fails.append("run %d: case %d result %r differs from the uninterrupted %r" % (attempt, k, got[k][0][1], val))
+        ran = [l.strip() for l in open(os.path.join(base, "calls.txt")) if l.strip()]
+        if attempt == 3 and ran: fails.append("run 3: completed cases executed again: %s" % ran[:4])
+finally:
+    shutil.rmtree(base, ignore_errors=True)
+result = dict(failures=fails[:8], n=len(fails))
+'''
+
+
+def _replay_restart(ob, res):
+    """native: an interrupted study (cases raising), restarted twice on the same directory, against an uninterrupted reference"""
+    from tpv import native
+    out = native.run(dict(code=_RESTART_NATIVE), timeout=900)
+    rec = dict(replayed=True, native=out)
+    if "result" not in out:
+        rec["confirmed"] = True
+        rec["detail"] = "the real multiprocessing_run raised / crashed in the restart scenario"
+        return rec
+    rec["confirmed"] = bool(out["result"]["failures"])
+    rec["detail"] = out["result"]["failures"][:3]
+    return rec
 
 
 def _replay_worker(ob, res):
